@@ -356,13 +356,19 @@ class Gen:
         }
 
     def _loop_args(self, node: dict) -> None:
+        p_arg = 0.3
         if self.p.loop_arg_commas:
             node["argsep"] = self.pick(["", "", "", ",", ",+"])
             if self.chance(0.3):
                 node["argorder"] = self.r.sample(range(4), 4)
-        if self.chance(0.3):
+            if node["argsep"]:
+                # comma-separated arguments are only interesting when there are several of them
+                p_arg = 0.7
+                if "rev" in node and self.chance(0.5):
+                    node["rev"] = True
+        if self.chance(p_arg):
             node["?limit"] = self.primitive("int")
-        if self.chance(0.3):
+        if self.chance(p_arg):
             if self.p.offset_continue and self.chance(0.25):
                 node["?offset"] = "continue"
             else:
